@@ -45,7 +45,7 @@ def gen_case(st, tier, env):
         ds = gen.gen_dataset(w, n_max=7, m_max=6)
     scheme = gen.gen_scheme(w)
     if k.random() < 0.06:
-        scheme = gen.gen_huge_int_scheme(w)  # exact in binary64, fatal for relative tolerances
+        scheme = gen.gen_huge_int_scheme(w) if k.random() < 0.6 else gen.gen_mixed_magnitude_scheme(w)  # exact ints
     n_univ = len({e for r in ds["rankings"] for b in r for e in b})
     sweep = tier == "thorough" and n_univ <= 5 and k.random() < 0.5
     nsched = k.choice([2, 4, 8])
